@@ -243,7 +243,7 @@ func (g *gen) body() []byte {
 		// a body that looks like protocol elements
 		return []byte("RTSP/1.0 200 OK\r\n\r\n$\x00\x00\x01xOPTIONS * RTSP/1.0\r\n\r\n")
 	}
-	b := make([]byte, 1+g.r.IntN(200))
+	b := make([]byte, g.pick(1, 2, 3, 1+g.r.IntN(200), 1+g.r.IntN(200)))
 	for i := range b {
 		b[i] = byte(g.r.IntN(256))
 	}
